@@ -69,7 +69,7 @@ def run(ctx):
     if ctx.thorough and ctx.shard == 0 and ctx.only_case is None:
         from ..suite_contracts import run_repo_suite_with_contracts
         run_repo_suite_with_contracts(obs, only='blur_mask,smear_mask,c_mask_from_centres,buffer_faces,mask_from_face_indexes')
-    total = ctx.n(320, 10000)
+    total = ctx.n(320, 40000)
     for case, rng in ctx.cases(total, stream='e2e'):
         conv = CONVENTIONS[case % len(CONVENTIONS)]
         spec = {'case': case, 'convention': conv, 'part': 'end-to-end'}
